@@ -857,6 +857,11 @@ func (ctx Ctx) selectExpr(e *ast.SelectorExpr) coq.Expr {
 	// If it is, we need to translate to 'StructName__FuncName varName' instead
 	// of a struct access
 	sig, isFuncType := (ctx.typeOf(e)).(*types.Signature)
+	if sel, found := ctx.info.Selections[e]; found && sel.Kind() == types.FieldVal {
+		// a field of function type is read like any other field; only a
+		// method value names the method's definition
+		isFuncType = false
+	}
 	if isFuncType {
 		if sig.Params().Len() == 0 {
 			// T__m x is already the call of a method without parameters,
